@@ -52,6 +52,31 @@ def judgeLine (s : Sample) (withId : Bool) (obs : LineObs) : String :=
             else s!"fail:value:got {d.fields} want {want.fields}"
       | _ => s!"fail:count:{lines.length} lines for one report"
 
+/-! ## several samples through one aggregator: the whole file -/
+
+def judgeSeq (ss : List Sample) (withId : Bool) (obs : LineObs) : String :=
+  if ss.any (fun s => s.tag.contains TAB || s.tag.contains LF) then "skip:out-of-format-tag"
+  else if ss.any (fun s => s.ms < 1000) then "skip:timestamp-before-1s"
+  else match obs with
+  | .panic w => s!"fail:panic:{w}"
+  | .other w => s!"fail:error:{w}"
+  | .bytes out =>
+    match fileLines out with
+    | none => "fail:unterminated:output does not end with LF"
+    | some lines =>
+      if lines.length != ss.length then s!"fail:count:{lines.length} lines for {ss.length} reports"
+      else
+        let rec go : List Bytes → List Sample → Nat → String
+          | line :: ls, s :: rest, i =>
+            if (splitOn TAB line).length != 12 then s!"fail:columns:line {i} has {(splitOn TAB line).length} columns"
+            else match decodeBody line withId with
+              | none => s!"fail:malformed:line {i} does not parse"
+              | some d =>
+                let want := if withId then s else { s with id := 0 }
+                if d == want then go ls rest (i + 1) else s!"fail:value:line {i} decodes to another sample"
+          | _, _, _ => "ok"
+        go lines ss 0
+
 /-! ## reporters × queue × aggregator -/
 
 structure QueueIn where
@@ -108,6 +133,50 @@ def judgeQueue (i : QueueIn) (o : QueueObs) : String :=
       else if dupCount w != 0 then s!"fail:dup:{dupCount w} duplicates (sequence)"
       else if w.any (fun e => e.1 ≥ i.g || e.2 ≥ i.k) then "fail:phantom:a line that nobody reported"
       else "ok"
+
+/-! ## the cancel in the middle of the reporting; the engine -/
+
+structure LateObs where
+  reports : Nat     -- Report calls completed at all
+  pre : Nat         -- Report calls completed before cancel() was called
+  lines : Nat
+  dropped : Nat
+  err : String
+  order : Bool
+  dup : Nat
+  bad : Nat
+  closed : Bool
+  miss : Nat        -- samples reported before the cancel that are not in the output
+
+/-- what must hold when Report calls race with the cancel: everything reported BEFORE the cancel is written
+(or, bounded-queue encoder aggregators, counted); nothing is written twice or out of order or malformed;
+nothing is accounted for that was not reported; the sink is closed. -/
+def judgeLate (kind : Pandora.Model.AggQueue.Kind) (o : LateObs) : String :=
+  if o.bad != 0 then s!"fail:malformed:{o.bad} lines do not decode or were never reported"
+  else if o.dup != 0 then s!"fail:dup:{o.dup} samples written more than once"
+  else if !o.order then "fail:order:per-reporter order not preserved"
+  else if o.lines + o.dropped > o.reports then
+    s!"fail:count:{o.lines} lines + {o.dropped} dropped > {o.reports} reports made"
+  else if o.lines + o.dropped < o.pre then
+    s!"fail:count:{o.lines} lines + {o.dropped} dropped < {o.pre} reports made before the cancel"
+  else if kind == .phout && o.dropped != 0 then s!"fail:drop:phout dropped {o.dropped}"
+  else if o.miss > o.dropped then
+    s!"fail:lost:{o.miss} samples reported before the cancel are not in the output, {o.dropped} counted as dropped"
+  else if o.err != (if o.dropped == 0 then "nil" else s!"dropped:{o.dropped}") then s!"fail:err:Run returned {o.err}"
+  else if !o.closed then "fail:close:sink not closed exactly once after the last write"
+  else "ok"
+
+/-- a sink that fails: nothing can be said about the lines, but the sink must still be closed (once, and
+nothing written after that) -/
+def judgeFailingSink (closed : Bool) : String :=
+  if !closed then "fail:close:sink not closed exactly once after the last write (failing sink)" else "ok"
+
+/-- the real engine: `run` = what Engine.Run returned; judged at Run's return when nil, after Wait otherwise -/
+def judgeEngine (kind : Pandora.Model.AggQueue.Kind) (run : String) (aggret : Bool) (cancelled : Bool) (o : LateObs) : String :=
+  if run == "other" then "fail:engine:Engine.Run returned an unexpected error"
+  else if run == "nil" && cancelled && o.pre < o.reports then "skip:inconclusive"   -- cancel raced with the natural end
+  else if !aggret then "fail:early-return:the engine finished before the aggregator's Run returned"
+  else judgeLate kind o
 
 /-! ## JSON lines, content level -/
 
